@@ -1073,6 +1073,46 @@ func (e *env) scenarioBranches() {
 	}
 }
 
+// scenarioBoundaryPass (C03): the private passphrase has the maximal length; passphrases that extend it, or that it
+// extends, are other passphrases - locked and unlocked, for every guarded operation.
+func (e *env) scenarioBoundaryPass() {
+	if e.priv >= 0 || len(e.ksIDs()) > 0 {
+		return
+	}
+	e.freshID++
+	id := e.freshID
+	_, out := e.opNew(8, "s"+strconv.Itoa(id), "maxlen")
+	e.do(fmt.Sprintf("new %s s%d %s", e.ptok(8), id, rtok("maxlen")), out)
+	if !strings.HasPrefix(out, "created") {
+		return
+	}
+	e.do(e.opNext(id, false, 1))
+	for _, unlocked := range []bool{false, true} {
+		if unlocked {
+			e.do(e.opUnlock(8))
+		}
+		for _, p := range []int{9, 10, 7} {
+			e.do(e.opExport(id, p))
+			e.do(e.opDelete(id, p))
+			old, nw := p, 2
+			err := e.kmc.ChangePrivPassphrase([]byte(e.passes[old]), []byte(e.passes[nw]), fast)
+			line := fmt.Sprintf("chpriv %s %s", e.ptok(old), e.ptok(nw))
+			if err == nil {
+				e.guarded("ChangePrivPassphrase", old)
+				e.priv = nw
+				e.do(line, "ok")
+				return
+			}
+			e.do(line, "err "+errName(err))
+		}
+		if !unlocked {
+			e.do(e.opUnlock(9))
+			e.do(e.opUnlock(10))
+		}
+	}
+	e.do("lock", e.lock())
+}
+
 // scenarioC01: export every keystore, delete it, and import the file back under every kind of alteration
 // (into the same wallet); finally import all files into a fresh wallet ("any other wallet").
 func (e *env) scenarioC01() {
@@ -1159,8 +1199,13 @@ func main() {
 	}
 	defer os.RemoveAll(root)
 	e := &env{h: h, focus: *focus, root: root}
-	e.passes = []string{"pubpass00", "privpassA1", "privpassB2", "other#pass3", "Abc@123456", "short", "bad pass!", "waytoolongpassphrase0123456789012345678901234567890"}
-	e.wf = []bool{true, true, true, true, true, false, false, false}
+	// #8 is a passphrase of the maximal length (40), #9 extends it by one character (too long: ill-formed), #10 is its 6-character prefix
+	e.passes = []string{"pubpass00", "privpassA1", "privpassB2", "other#pass3", "Abc@123456", "short", "bad pass!", "waytoolongpassphrase0123456789012345678901234567890",
+		"maxlen40passphrase@0123456789abcdefghijk", "maxlen40passphrase@0123456789abcdefghijkZ", "maxlen"}
+	e.wf = []bool{true, true, true, true, true, false, false, false, true, false, true}
+	if len(e.passes[8]) != 40 {
+		panic("pool passphrase #8 must have 40 characters")
+	}
 	for i := 0; i < 4; i++ {
 		e.seeds = append(e.seeds, sha256sum("pool-seed-"+strconv.Itoa(i)))
 	}
@@ -1205,6 +1250,9 @@ func main() {
 		pub := []int{0, 0, 3}[h.Rng.Intn(3)]
 		e.freshWallet(pub)
 		h.Emit("reset "+e.ptok(pub), "ok")
+		if (e.focus == "C03" && s%4 == 1) || (e.focus != "C03" && h.Rng.Intn(10) == 0) {
+			e.scenarioBoundaryPass()
+		}
 		n := 6 + h.Rng.Intn(h.Len)
 		for i := 0; i < n; i++ {
 			e.step()
